@@ -26,7 +26,7 @@ def ctrl_frame(stype, system, function=0):
 
 
 class GemRig:
-    def __init__(self, host=False, init="ATTEMPT_ONLINE", sub="REMOTE", handler_cls=None, **kw):
+    def __init__(self, host=False, init="ATTEMPT_ONLINE", sub="REMOTE", handler_cls=None, auto_establish=True, **kw):
         self.settings = protorig.RigSettings(connect_mode=secsgem.hsms.HsmsConnectMode.PASSIVE, device_id=0, **kw)
         self.settings.timeouts.t3 = 60
         self.settings.timeouts.t6 = 60
@@ -39,6 +39,8 @@ class GemRig:
         self.seen = 0                      # frames already reported
         self.frames = []                   # every decoded frame sent by the handler
         self.responders = {(1, 13): self._answer_s1f13, (6, 11): self._answer_ack(6, 12, b"\x21\x01\x00"), (5, 1): self._answer_ack(5, 2, b"\x21\x01\x00")}
+        if not auto_establish:
+            del self.responders[(1, 13)]
         self.pending = {}                  # (stream, function) -> system of a primary the harness has not answered
         self._partial = b""
         inner_send = self.conn.send_data
